@@ -225,11 +225,24 @@ def run_stages(cpu, mode, i, fmts):
                 yield ("render/%s" % name, (type(ex).__name__, str(ex)[:100], site_of(ex)))
         try:
             j = pickle.loads(pickle.dumps(i, pickle.HIGHEST_PROTOCOL))
-            same = (j.bytes == i.bytes and j.mnemonic == i.mnemonic and len(j.operands) == len(i.operands) and
-                    [str(o) for o in j.operands] == [str(o) for o in i.operands] and j.type == i.type and str(j) == str(i))
-            yield ("pickle", None if same else ("Mismatch", "restored instruction differs: %s vs %s" % (j, i)))
         except Exception as ex:
+            j = None
             yield ("pickle", (type(ex).__name__, str(ex)[:100], site_of(ex)))
+        if j is not None:
+            # structural comparison (independent of rendering): bytes, mnemonic, type, spec and every attribute incl. operands
+            try:
+                si_, sj_ = decx.concrete_signature(i), decx.concrete_signature(j)
+                same = (si_ == sj_ and bytes(j.bytes) == bytes(i.bytes) and type(j) is type(i))
+                if same:
+                    try:
+                        text = str(i)
+                    except Exception:
+                        text = None  # rendering failures are reported by the render stage
+                    if text is not None and str(j) != text:
+                        same = False
+                yield ("pickle", None if same else ("Mismatch", "restored instruction differs from the original (%s)" % i.mnemonic, "pickle"))
+            except Exception as ex:
+                yield ("pickle", (type(ex).__name__, str(ex)[:100], site_of(ex)))
         try:
             m = mapper()
             i(m)
